@@ -88,24 +88,65 @@ def run_prelude(kind):
                     sub_.attributes()
                 except Exception:
                     pass
+    elif kind == 'partial':
+        # first use of every class is an *abandoned* iteration / a peek
+        import warnings
+        warnings.simplefilter('ignore')
+        for cls in list(commands.INDEX_MAPPING.values()) + [commands.Basic.Properties]:
+            try:
+                obj = cls()
+                it = iter(obj)
+                next(it)
+                for _ in obj:
+                    break
+                any(True for _ in zip(obj, [0]))
+            except Exception:
+                pass
+    elif kind == 'apifuzz':
+        # an application exploring the public helper functions of the modules with many
+        # distinct arguments (whatever functions the tree under test offers)
+        import inspect
+        from pamqp import constants
+        for mod in (exceptions, constants):
+            for name, fn in sorted(vars(mod).items()):
+                if name.startswith('_') or not inspect.isfunction(fn):
+                    continue
+                try:
+                    params = [p for p in inspect.signature(fn).parameters.values()
+                              if p.default is p.empty and
+                              p.kind in (p.POSITIONAL_ONLY, p.POSITIONAL_OR_KEYWORD)]
+                except (TypeError, ValueError):
+                    continue
+                if len(params) != 1:
+                    continue
+                for arg in list(range(0, 1200)) + ['x', None, -1, 2 ** 40]:
+                    try:
+                        fn(arg)
+                    except Exception:
+                        pass
     else:
         raise SystemExit('unknown prelude ' + kind)
 
 
-def make_bulk(prop, components, flags=('-O', '-OO'), skip_buckets=(), preludes=('',)):
+def make_bulk(prop, components, flags=('-O', '-OO'), skip_buckets=(), preludes=('',),
+              envs=({},)):
     def bulk(tier, shard, nshards, rec):
         from pbt import canon
         from pbt.runner import REPO, VERIF
         env = dict(os.environ, PAMQP_REPO=REPO, PYTHONHASHSEED='0',
                    PYTHONDONTWRITEBYTECODE='1')
         env.pop('PYTHONOPTIMIZE', None)
-        for flag, prelude in [(f, p) for f in flags for p in preludes]:
+        base_env = dict(env)
+        for flag, prelude, extra in [(f, p, e) for f in flags for p in preludes
+                                     for e in envs]:
+            env = dict(base_env, **extra)
             env['VERIF_PRELUDE'] = prelude
             cmd = [sys.executable] + ([flag] if flag else []) + \
                 ['-B', '-m', 'pbt.optchild', prop] + list(components)
             p = subprocess.run(cmd, cwd=VERIF, env=env, capture_output=True,
                                text=True, timeout=1800)
-            flag = (flag or 'python') + ('+' + prelude if prelude else '')
+            flag = (flag or 'python') + ('+' + prelude if prelude else '') + \
+                ''.join('+%s=%s' % kv for kv in sorted(extra.items()))
             if p.returncode != 0:
                 rec.harness_errors.append('interpreter %s child failed:\n%s' %
                                           (flag, p.stderr[-1500:]))
@@ -135,7 +176,15 @@ def flagged(prop, inner_check):
         env = dict(os.environ, PAMQP_REPO=REPO, PYTHONHASHSEED='0',
                    PYTHONDONTWRITEBYTECODE='1')
         env.pop('PYTHONOPTIMIZE', None)
-        flag, _, prelude = case['flag'].partition('+')
+        parts = case['flag'].split('+')
+        flag = parts[0]
+        prelude = ''
+        for part in parts[1:]:
+            if '=' in part:
+                k, _, v = part.partition('=')
+                env[k] = v
+            else:
+                prelude = part
         env['VERIF_PRELUDE'] = prelude
         p = subprocess.run([sys.executable] + ([flag] if flag.startswith('-') else []) +
                            ['-B', '-m', 'pbt.optchild', '--case', prop,
